@@ -35,6 +35,8 @@ assumptions(PROP, [
     "domain: k_1 in (1,15], k_2 in {absent, inf, k_1, 2k_1-1, k_1*[1,2.5]}, SD in [1,1e4], ND in [1e3,1e8], TN/TS absent or in [1,10], "
     "native failure probability absent, 0.5 or in [0.01,0.99]; collectives with 1..8 range classes (x 1..2 mean classes), from/to "
     "matrices, from/to or range/mean frames; cycle counts 0 or in [1e-3,1e7]; largest class amplitude between 0.3 and 5 SD",
+    "cycle counts are float64 or (a third of the cases) whole numbers held as int64 Series / columns; kind hist_rh is the int64 histogram "
+    "returned by LoadCollective.range_histogram() for single cycles placed inside the classes (0.1..0.9 of the class width)",
     "at least one member with positive amplitude is occupied (an all-empty collective has no life to predict)",
     "damage and Gassner cycles are evaluated at the default failure probability 0.5 (what Fatigue.damage and gassner_cycles do)",
     "Miner-Haibach Gassner cycles are asserted when the largest class amplitude is >= SD; below SD the docstring promises an "
@@ -120,7 +122,7 @@ def ref_amplitudes(coll, factor=None):
     kind, loc = coll["kind"], coll.get("loc", "mid")
     out = []
     for row in coll["rows"]:
-        if kind in ("hist_range", "hist_range_mean"):
+        if kind in ("hist_range", "hist_range_mean", "hist_rh"):
             a = _loc(row[0], loc) / 2.0
         elif kind == "hist_from_to":
             a = abs(_loc(row[0], loc) - _loc(row[1], loc)) / 2.0
@@ -145,29 +147,51 @@ def build(coll, cycles=None, rows=None, force_cycles=False):
     R = [coll["rows"][i] for i in sel]
     cyc = coll["cycles"] if cycles is None else cycles
     cyc = None if cyc is None else [float(cyc[i]) for i in sel]
+    # integer-typed counts (int64 Series / column) whenever the case says so and the counts are the (integral) original ones
+    as_int = cycles is None and cyc is not None and coll.get("counts") == "int"
+    dtype = np.int64 if as_int else float
     if cyc is None and force_cycles:
         cyc = [1.0] * len(sel)
+    if kind == "hist_rh" and cycles is None and rows is None:
+        return _from_range_histogram(coll, g, f if api else None, loc)
+    if kind == "hist_rh":
+        kind = "hist_range"
 
     def iv(k, name):
         return pd.IntervalIndex.from_arrays([r[k][0] * g for r in R], [r[k][1] * g for r in R], name=name)
 
     if kind == "hist_range":
-        obj = pd.Series(cyc, index=iv(0, "range"), name="cycles", dtype=float)
+        obj = pd.Series(cyc, index=iv(0, "range"), name="cycles", dtype=dtype)
     elif kind == "hist_range_mean":
-        obj = pd.Series(cyc, index=pd.MultiIndex.from_arrays([iv(0, "range"), iv(1, "mean")], names=["range", "mean"]), name="cycles", dtype=float)
+        obj = pd.Series(cyc, index=pd.MultiIndex.from_arrays([iv(0, "range"), iv(1, "mean")], names=["range", "mean"]), name="cycles", dtype=dtype)
     elif kind == "hist_from_to":
-        obj = pd.Series(cyc, index=pd.MultiIndex.from_arrays([iv(0, "from"), iv(1, "to")], names=["from", "to"]), name="cycles", dtype=float)
+        obj = pd.Series(cyc, index=pd.MultiIndex.from_arrays([iv(0, "from"), iv(1, "to")], names=["from", "to"]), name="cycles", dtype=dtype)
     else:
         a, b = ("from", "to") if kind == "coll_from_to" else ("range", "mean")
         d = {a: [r[0] * g for r in R], b: [r[1] * g for r in R]}
         if cyc is not None:
-            d["cycles"] = cyc
+            d["cycles"] = np.array(cyc, dtype=dtype)
         labels = coll.get("labels") or list(range(len(coll["rows"])))
         obj = pd.DataFrame(d, index=pd.Index([labels[i] for i in sel]))
     lc = obj.load_collective
     if api:
         lc = lc.scale(f)
     if kind.startswith("hist") and loc != "mid":
+        lc = lc.use_class_right() if loc == "right" else lc.use_class_left()
+    return lc
+
+
+def _from_range_histogram(coll, g, scale, loc):
+    """the histogram as pyLife itself produces it: single cycles counted by LoadCollective.range_histogram() (int64 counts)"""
+    R = coll["rows"]
+    edges = [R[0][0][0] * g] + [r[0][1] * g for r in R]
+    rng = [(r[0][0] + (r[0][1] - r[0][0]) * t) * g for r, ts in zip(R, coll["members"]) for t in ts]
+    df = pd.DataFrame({"from": [-x / 2.0 for x in rng], "to": [x / 2.0 for x in rng]})
+    bins = pd.IntervalIndex.from_breaks(edges) if coll.get("bins_as_intervals") else edges
+    lc = df.load_collective.range_histogram(bins)
+    if scale is not None:
+        lc = lc.scale(scale)
+    if loc != "mid":
         lc = lc.use_class_right() if loc == "right" else lc.use_class_left()
     return lc
 
@@ -250,16 +274,16 @@ LEVEL = st.one_of(st.sampled_from([0.3, 0.9, 1.0, 1.1, 2.0, 5.0]), st.floats(0.3
 
 @st.composite
 def collectives(draw, curve, kinds=None, need_empty=None, level=None):
-    kind = draw(st.sampled_from(kinds or ["hist_range", "hist_range", "hist_range_mean", "hist_from_to", "coll_from_to", "coll_range_mean"]))
+    kind = draw(st.sampled_from(kinds or ["hist_range", "hist_range", "hist_range_mean", "hist_from_to", "coll_from_to", "coll_range_mean", "hist_rh"]))
     coll = {"kind": kind}
-    if kind in ("hist_range", "hist_range_mean"):
+    if kind in ("hist_range", "hist_range_mean", "hist_rh"):
         n = draw(st.integers(1, 8))
         e = draw(_edges(n))
         loc = draw(st.sampled_from(["mid", "mid", "right", "left"]))
         if loc == "left" and e[0] == 0.0:
             e[0] = e[1] / 4.0
         rng = [[e[i], e[i + 1]] for i in range(n)]
-        if kind == "hist_range":
+        if kind in ("hist_range", "hist_rh"):
             rows = [[r] for r in rng]
         else:
             m = draw(st.integers(1, 2))
@@ -296,6 +320,17 @@ def collectives(draw, curve, kinds=None, need_empty=None, level=None):
         coll["cycles"], coll["pattern"] = None, "unit"
     else:
         coll["cycles"], coll["pattern"] = draw(_cycles(len(coll["rows"]), rel, need_empty))
+    # type of the counts: float64, or int64 (then the counts are whole numbers)
+    coll["counts"] = "float"
+    if kind == "hist_rh":
+        # every class holds as many single cycles as its count (1..6); the cycles lie well inside their class
+        coll["members"] = [[] if x == 0 else draw(st.lists(st.floats(0.1, 0.9, allow_nan=False), min_size=1, max_size=6)) for x in coll["cycles"]]
+        coll["cycles"] = [float(len(m)) for m in coll["members"]]
+        coll["counts"] = "int"
+        coll["bins_as_intervals"] = draw(st.booleans())
+    elif coll["cycles"] is not None and draw(st.integers(0, 2)) == 0:
+        coll["cycles"] = [float(math.ceil(x)) for x in coll["cycles"]]
+        coll["counts"] = "int"
     return coll
 
 
@@ -312,7 +347,7 @@ def _describe(case, ctx):
     ref = _RefCurve(c)
     amps, cyc = ref_amplitudes(coll), ref_cycles(coll)
     occ = [a for a, n in zip(amps, cyc) if n > 0]
-    ctx.label("kind:" + coll["kind"], "empty:" + coll["pattern"])
+    ctx.label("kind:" + coll["kind"], "empty:" + coll["pattern"], "counts:" + coll.get("counts", "float"))
     if coll["kind"].startswith("hist"):
         ctx.label("loc:" + coll["loc"])
     if top_class_empty(case):
@@ -606,7 +641,7 @@ def _eds_cases(draw, tier):
     # steep spectra make the lifetime multiple large (D_m at the lower bound); a single class makes it 1 (upper bound)
     boost = draw(st.sampled_from([None, None, 1e3, 1e6]))
     coll = case["coll"]
-    if boost and coll["cycles"] is not None:
+    if boost and coll["cycles"] is not None and coll["kind"] != "hist_rh":
         amps = ref_amplitudes(coll)
         lo = min(range(len(amps)), key=lambda i: amps[i])
         if coll["cycles"][lo] > 0:
